@@ -249,6 +249,21 @@ def verify_statics(run):
     at_export = any(isinstance(n, ast.Call) and ast.unparse(n.func) == "representation.import_statement" for n in ast.walk(enc))
     run.add(static("exporter.PythonExporter/import_header_computed_at_export_time", not cached and at_export, f"settings-dependent values computed in the constructor: {cached}; encapsulate() calls representation.import_statement(): {at_export}",
                    fn="exporter.PythonExporter.encapsulate", meta={"soft": True, "replay": {"module": "contracts.repr_native", "func": "replay_exporter_reuse", "kwargs": {}, "vars": {}}}))
+    # the component methods of the exporter forward to to_string unconditionally (only norm / activation / defuzzifier, which may be None, print "None")
+    bad = []
+    for meth in ("engine", "input_variable", "output_variable", "rule_block", "term", "rule", "norm", "activation", "defuzzifier"):
+        try:
+            fm = src.func("exporter", f"PythonExporter.{meth}")
+        except NotFound:
+            bad.append(f"{meth}: not found"); continue
+        run.under_contract("exporter", f"PythonExporter.{meth}", fm)
+        body = [ast.unparse(x) for x in fm.body if not (isinstance(x, ast.Expr) and isinstance(x.value, ast.Constant))]
+        arg = fm.args.posonlyargs[-1].arg if fm.args.posonlyargs else fm.args.args[-1].arg
+        okb = [f"return self.to_string({arg})"] + ([f"return self.to_string({arg}) if {arg} else 'None'"] if meth in ("norm", "activation", "defuzzifier") else [])
+        if body[-1:] == [] or body[0] not in okb or len(body) != 1:
+            bad.append(f"{meth}: {body}")
+    run.add(static("exporter.PythonExporter/component_methods_forward_to_to_string", not bad, f"not of the form `return self.to_string(x)`: {bad}" if bad else "engine, input_variable, output_variable, rule_block, term, rule return self.to_string(x); norm, activation, defuzzifier print None for None",
+                   fn="exporter.PythonExporter.to_string", meta={"soft": True, "replay": {"module": "contracts.repr_native", "func": "replay_exporter_components", "kwargs": {}, "vars": {}}}))
     ei = src.func("engine", "Engine.__init__")
     run.under_contract("engine", "Engine.__init__", ei)
     loops = [ast.unparse(n) for n in ast.walk(ei) if isinstance(n, ast.For)]
@@ -296,6 +311,11 @@ def verify_binding(run):
 def build(run):
     run.assume("A-FMT", "A-REFLECT", "A-SET", "A-PY", "A-MSG", "A-LISTVAL")
     src = run.src
+    from props import C14
+    try:
+        C14.verify_is_close(run)          # the representations decide on Op.is_close(height, 1.0): the helper's contract (shared with C14)
+    except NotFound as ex_:
+        run.add(static("operation.Op.is_close/exists", False, str(ex_)))
     plan = [("term", c) for c in src.subclasses("term", "Term")] + [("variable", "Variable"), ("variable", "InputVariable"), ("variable", "OutputVariable"), ("rule", "RuleBlock"), ("rule", "Rule"), ("engine", "Engine")] \
         + [("activation", c) for c in src.subclasses("activation", "Activation")] + [("defuzzifier", c) for c in src.subclasses("defuzzifier", "Defuzzifier") if c not in ("IntegralDefuzzifier", "WeightedDefuzzifier")] \
         + [("norm", c) for c in src.subclasses("norm", "Norm") if c not in ("TNorm", "SNorm", "NormLambda", "NormFunction")] + [("hedge", c) for c in src.subclasses("hedge", "Hedge") if c not in ("HedgeLambda", "HedgeFunction")]
@@ -322,6 +342,8 @@ def build(run):
                 bound="an engine with Function and Linear terms in an input variable and in an output variable, rebuilt from repr and from the encapsulated export under 3 aliases: bit-identical outputs on 5 input rows")
     run.bounded("library.Representation/large_collections.runtime", "contracts.repr_native", "replay_large_collections", [dict(seed=run.seed)],
                 bound="a Function term with 12 variables, a Discrete term with 40 pairs, a Linear term with 30 coefficients, a variable with 25 terms, a rule block with 30 rules: eval(repr) under aliases fl and *")
+    run.bounded("exporter.PythonExporter/component_methods.runtime", "contracts.repr_native", "replay_exporter_components", [dict(seed=run.seed)],
+                bound="the nine component methods on full and EMPTY components (a variable without terms, a rule block without rules, an empty engine, None operators) under aliases fl / '' / *, formatted or not: the code evaluates to an object with the same representation")
     run.bounded("exporter.PythonExporter/exporter_object_reused_across_aliases.runtime", "contracts.repr_native", "replay_exporter_reuse", [dict(seed=run.seed)],
                 bound="one PythonExporter object (plain and encapsulated) created under one alias and used under the four aliases: the export executes after its own first line / the import statement")
     for fid, (cls, name) in KNOWN.items():
